@@ -367,6 +367,19 @@ static void DecodeS(Word Code) {
     }
 }
 
+/* BIF: special format, 8 bit opcode followed by an 8 bit opcode extension */
+
+static void DecodeBIF(Word Code) {
+    if (ChkArgCnt(1, 1)) {
+        Boolean OK;
+        Word    Value = EvalStrIntExpression(&ArgStr[1], UInt8, &OK);
+
+        if (OK) {
+            PutCode(Code | Value);
+        }
+    }
+}
+
 static void DecodeIM1_16(Word Code) {
     if (ChkArgCnt(2, 3) && DecodeAdr(2, ArgCnt)) {
         Boolean      OK;
@@ -660,7 +673,7 @@ static void InitFields(void) {
     AddInstTable(InstTable, "BR", 0x7400, DecodeICR);
     AddInstTable(InstTable, "BEX", 0x7700, DecodeS);
     AddInstTable(InstTable, "BPT", 0xFFFF, DecodeNone);
-    AddInstTable(InstTable, "BIF", 0x4F00, DecodeS);
+    AddInstTable(InstTable, "BIF", 0x4F00, DecodeBIF);
     AddInstTable(InstTable, "CISP", 0xF200, DecodeIS);
     AddInstTable(InstTable, "CIM", 0x4A0A, DecodeImOcx);
     AddInstTable(InstTable, "CR", 0xF100, DecodeR);
